@@ -1,12 +1,12 @@
 /-
 C14 - the import's region arithmetic in terms of the functions the CODE defines
 (`determineProcessingRegions`, `determineDivergenceSyncModes`, `targetHeightToImportSourceIndex`,
-translated from chainimport/ on every run, Gen/Trans.lean).
+translated from chainimport/ on every run, Gen/TransImport.lean).
 -/
 import Neutrino.Props.C14
 import Neutrino.Lemmas.TransImport
 namespace Neutrino.Import
-open Neutrino.Gen.Trans Neutrino.GoInt
+open Neutrino.Gen.TransImport Neutrino.GoInt
 
 /-- **`(*headersImport).determineProcessingRegions`** computes the model's `regions` (the function
 every C14 theorem about `importRun` goes through): with the metadata and both chain tips read
